@@ -98,50 +98,52 @@ pub open spec fn bg(s: Seq<Tok>, d: Delim, inner: Seq<Tok>) -> Seq<Tok> { s + gr
 pub open spec fn bt(s: Seq<Tok>, x: Seq<Tok>) -> Seq<Tok> { s + x }
 
 /// `Err(err) => Err(err)`
-pub open spec fn err_to_err() -> Seq<Tok> {
-    bg(bi(bp(bp(bg(bi(no_toks(), "Err"@), Delim::Paren, bi(no_toks(), "err"@)), '='), '>'), "Err"@), Delim::Paren, bi(no_toks(), "err"@))
+/// (`ev`: the binder the generator happens to use; taken from the source by R9 `quote_idents`, never spelled here)
+pub open spec fn err_to_err(ev: Seq<char>) -> Seq<Tok> {
+    bg(bi(bp(bp(bg(bi(no_toks(), "Err"@), Delim::Paren, bi(no_toks(), ev)), '='), '>'), "Err"@), Delim::Paren, bi(no_toks(), ev))
 }
 
 /// `match srn { Ok(<bind>) => <ok_arm> , Err(err) => Err(err) }` where ok_arm is appended by `rest`
 pub open spec fn match_ok_head(srn: Seq<Tok>, bind: Seq<Tok>) -> Seq<Tok> {
     bp(bp(bg(bi(no_toks(), "Ok"@), Delim::Paren, bt(no_toks(), bind)), '='), '>')
 }
-pub open spec fn match_ok(srn: Seq<Tok>, arm_with_head: Seq<Tok>) -> Seq<Tok> {
-    bg(bt(bi(no_toks(), "match"@), srn), Delim::Brace, bt(bp(arm_with_head, ','), err_to_err()))
+pub open spec fn match_ok(srn: Seq<Tok>, arm_with_head: Seq<Tok>, ev: Seq<char>) -> Seq<Tok> {
+    bg(bt(bi(no_toks(), "match"@), srn), Delim::Brace, bt(bp(arm_with_head, ','), err_to_err(ev)))
 }
 
 pub open spec fn opt_seq(o: Option<TokenStream>) -> Seq<Tok> { match o { Some(t) => t@, None => no_toks() } }
 
 /// C05 / C06 (transposing try macro, a step that is not the last): the next step is reached ONLY in the `else` of the
 /// failure test; the test looks at exactly the ACTIVE branches in branch order
-pub open spec fn js_try_transpose(step_toks: Seq<Tok>, ext: Seq<Tok>, checks: Seq<Tok>, arms: Seq<Tok>, v: Seq<Tok>, next: Seq<Tok>) -> Seq<Tok> {
-    let s = bp(bg(bi(bi(bi(bt(bt(no_toks(), step_toks), ext), "if"@), "let"@), "Some"@), Delim::Paren, bi(no_toks(), "__fail_index"@)), '=');
+pub open spec fn js_try_transpose(step_toks: Seq<Tok>, ext: Seq<Tok>, checks: Seq<Tok>, arms: Seq<Tok>, v: Seq<Tok>, next: Seq<Tok>, fi: Seq<char>) -> Seq<Tok> {
+    let s = bp(bg(bi(bi(bi(bt(bt(no_toks(), step_toks), ext), "if"@), "let"@), "Some"@), Delim::Paren, bi(no_toks(), fi)), '=');
     let s = bg(s, Delim::Bracket, bt(no_toks(), checks));
     let s = bg(bi(bp(s, '.'), "iter"@), Delim::Paren, no_toks());
     let s = bg(bi(bp(s, '.'), "position"@), Delim::Paren, bt(bp(bp(bt(bp(no_toks(), '|'), v), '|'), '!'), v));
     let inner = bg(bp(bi(bp(bp(bi(bp(bt(no_toks(), arms), ','), "_"@), '='), '>'), "unreachable"@), '!'), Delim::Paren, no_toks());
-    let s = bg(s, Delim::Brace, bg(bi(bi(no_toks(), "match"@), "__fail_index"@), Delim::Brace, inner));
+    let s = bg(s, Delim::Brace, bg(bi(bi(no_toks(), "match"@), fi), Delim::Brace, inner));
     bg(bi(s, "else"@), Delim::Brace, bt(no_toks(), next))
 }
 
 /// non-transposing try macro, not the last step: `match srn { Ok(srn) => { let srn = (Ok(srn.0), ..); <ext> <next> }, Err(err) => Err(err) }`
-pub open spec fn js_try_plain(step_toks: Seq<Tok>, ext: Seq<Tok>, srn: Seq<Tok>, oks: Seq<Tok>, next: Seq<Tok>) -> Seq<Tok> {
+pub open spec fn js_try_plain(step_toks: Seq<Tok>, ext: Seq<Tok>, srn: Seq<Tok>, oks: Seq<Tok>, next: Seq<Tok>, ev: Seq<char>) -> Seq<Tok> {
     let cur = bt(bp(bg(bp(bt(bi(no_toks(), "let"@), srn), '='), Delim::Paren, bt(no_toks(), oks)), ';'), ext);
-    bt(bt(no_toks(), step_toks), match_ok(srn, bg(match_ok_head(srn, srn), Delim::Brace, bt(bt(no_toks(), cur), next))))
+    bt(bt(no_toks(), step_toks), match_ok(srn, bg(match_ok_head(srn, srn), Delim::Brace, bt(bt(no_toks(), cur), next)), ev))
 }
 
 /// the whole function.  `ext` is what extract_results_tuple printed for this step (names of the ACTIVE branches only).
 pub open spec fn join_steps_spec(
     is_try: bool, transpose: bool, last: bool, branch_count: int, depths: Seq<usize>, step: int,
     step_toks: Seq<Tok>, next: Option<TokenStream>, ext: Seq<Tok>, vars: Seq<Ident>, srn: Seq<Tok>, v: Seq<Tok>,
+    fi: Seq<char>, ev: Seq<char>,
 ) -> Seq<Tok> {
     let n = depths.len() as int;
     let all = bg(no_toks(), Delim::Paren, bt(no_toks(), seq_toks_sep(vars, ',')));   // `(r0, r1, ..)`: ALL branches in branch order
     if is_try && !last {
         if transpose {
-            js_try_transpose(step_toks, ext, join_comma(checks_list(vars, depths, step, n)), join_comma(arms_list(vars, depths, step, n)), v, opt_seq(next))
+            js_try_transpose(step_toks, ext, join_comma(checks_list(vars, depths, step, n)), join_comma(arms_list(vars, depths, step, n)), v, opt_seq(next), fi)
         } else {
-            js_try_plain(step_toks, ext, srn, join_comma(oks_list(srn, depths, step, n)), opt_seq(next))
+            js_try_plain(step_toks, ext, srn, join_comma(oks_list(srn, depths, step, n)), opt_seq(next), ev)
         }
     } else if transpose && is_try {
         bt(bt(bt(no_toks(), step_toks), ext), transposer_toks(vars, group(Delim::Paren, seq_toks_sep(vars, ',')), 0))
@@ -151,12 +153,12 @@ pub open spec fn join_steps_spec(
                 let rest = filter_inactive(vars, depths, step, n);
                 if rest.len() > 0 {
                     // C04: the tuple handed back lists ALL branches in branch order, whichever of them finished earlier
-                    match_ok(srn, bg(match_ok_head(srn, srn), Delim::Brace, bt(bt(no_toks(), ext), transposer_toks(rest, group(Delim::Paren, seq_toks_sep(vars, ',')), 0))))
+                    match_ok(srn, bg(match_ok_head(srn, srn), Delim::Brace, bt(bt(no_toks(), ext), transposer_toks(rest, group(Delim::Paren, seq_toks_sep(vars, ',')), 0))), ev)
                 } else {
-                    match_ok(srn, bg(match_ok_head(srn, srn), Delim::Brace, bg(bi(bt(no_toks(), ext), "Ok"@), Delim::Paren, all)))
+                    match_ok(srn, bg(match_ok_head(srn, srn), Delim::Brace, bg(bi(bt(no_toks(), ext), "Ok"@), Delim::Paren, all)), ev)
                 }
             } else {
-                match_ok(srn, bg(bi(match_ok_head(srn, v), "Ok"@), Delim::Paren, bg(no_toks(), Delim::Paren, bt(no_toks(), v))))
+                match_ok(srn, bg(bi(match_ok_head(srn, v), "Ok"@), Delim::Paren, bg(no_toks(), Delim::Paren, bt(no_toks(), v))), ev)
             };
         bt(bt(no_toks(), step_toks), fin)
     } else {
